@@ -87,7 +87,7 @@ def apply_shape(ctx, rule='A5'):
     # decode passes validate=False only with edges produced by the encoder
     g = ctx.fn(f'{GP}.get_graph')
     cs = calls(g, 'get_for_apply_connection_choice')
-    ok = bool(cs) and norm(cs[0].args[1]) == 'node_edges'
+    ok = bool(cs) and argv(cs[0], 'edges', 1) is not None and norm(argv(cs[0], 'edges', 1)) == 'node_edges'
     src = [s for s in walk_fn(g) if isinstance(s, ast.Assign) and norm(s.targets[0]) == 'node_edges']
     ok = ok and bool(src) and 'conn_node_map[0][conn_edge[0]]' in norm(src[0].value) and \
         'conn_node_map[1][conn_edge[1]]' in norm(src[0].value) and 'for conn_edge in conn_edges' in norm(src[0].value)
